@@ -15,7 +15,7 @@ LEVEL = "exploration"
 RULE = (
     "case = time zone (fixed offsets, half/quarter-hour zones, DST zones of both hemispheres) x file mtimes and injected 'now' "
     "independently placed deep in winter / summer, within an hour before / after each DST switch and inside the repeated hour "
-    "(both folds) x file sizes incl. 0; class = (zone, mtime side, now side) plus size classes"
+    "(both folds) x file sizes incl. 0, 8 % clamped mtimes (0, 1, -1, 2^31-1, 2^31, 2100); class = (zone, mtime side, now side) plus size classes"
 )
 ASSUMPTIONS = ["integer-second mtimes; zones with second-precision offsets (pre-1900 LMT) are not exercised", "zoneinfo's tz database is the reference for offsets"]
 MIN_DECIDING = {"lastmod_checked": 300, "hashdate_checked": 300, "creationdate_checked": 100, "size_zero_checked": 10}
